@@ -7,7 +7,7 @@ import witness
 CRATE = os.path.join(WORK, "kani-crate")
 TARGET = os.path.join(WORK, "kani-target")
 GEN = os.path.join(WORK, "kani-gen")
-PLAYBACK_MODS = ["c01", "c03", "c04", "c05", "c14", "c15", "c17", "c18"]
+PLAYBACK_MODS = ["c01", "c03", "c04", "c04f", "c05", "c14", "c15", "c17", "c18"]
 PLAYBACK_EMPTY = "// concrete playback tests are written here by the runner\n"
 PLAYBACK_LOCK = threading.Lock()
 KANI_FLAGS = ["-Z", "stubbing", "-Z", "function-contracts", "-Z", "unstable-options"]
@@ -198,6 +198,7 @@ def run_harnesses(pid, specs, tier, log):
     budget = float(os.environ.get("VERIF_KANI_MEM_GB", "44"))
     lock = threading.Condition()
     used = [0.0]
+    npb = [0]
 
     def job(h):
         need = min(h.get("mem_gb", 4), budget)
@@ -212,6 +213,12 @@ def run_harnesses(pid, specs, tier, log):
                 used[0] -= need
                 lock.notify_all()
         if r["status"] == "failed":
+            with lock:
+                npb[0] += 1
+                do_pb = npb[0] <= int(os.environ.get("VERIF_KANI_PLAYBACKS", "2"))
+            if not do_pb:
+                r["witness"] = {"found": False, "note": "concrete playback is run for the first failing harnesses of a run only; see the other replay files of this run"}
+                return r
             try:
                 r["witness"] = playback(h, log)
             except Exception as e:
